@@ -210,9 +210,38 @@ pub fn ref_json(sent: &[u8]) -> ExRes {
 }
 
 /// Reference for `UrlEncodedBody<Vec<(String, String)>>`.
+///
+/// A name or value that is not valid UTF-8 once percent-decoded is malformed input (C15): the
+/// extractor must answer with its deserialization error, not with a lossy value.
 pub fn ref_form(sent: &[u8]) -> ExRes {
+    for pair in sent.split(|b| *b == b'&') {
+        for part in pair.splitn(2, |b| *b == b'=') {
+            if std::str::from_utf8(&pct_decode(part)).is_err() {
+                return Err("DeserializationError".into());
+            }
+        }
+    }
     let pairs: Vec<(String, String)> = form_urlencoded::parse(sent).into_owned().collect();
     Ok(format!("{pairs:?}"))
+}
+
+/// Independent percent-decoder (`+` is irrelevant for UTF-8 validity).
+fn pct_decode(part: &[u8]) -> Vec<u8> {
+    let hex = |b: u8| (b as char).to_digit(16).map(|d| d as u8);
+    let mut out = Vec::with_capacity(part.len());
+    let mut i = 0;
+    while i < part.len() {
+        if part[i] == b'%' && i + 2 < part.len() + 0 && i + 2 <= part.len() - 1 + 0 {
+            if let (Some(h), Some(l)) = (hex(part[i + 1]), hex(part[i + 2])) {
+                out.push(h * 16 + l);
+                i += 3;
+                continue;
+            }
+        }
+        out.push(part[i]);
+        i += 1;
+    }
+    out
 }
 
 /// Content-Length header variants for Part A (values are raw header bytes; several values =
